@@ -659,3 +659,52 @@ def o5(ctx):
                           '%s performs a cache operation without retry=True: the recipe can raise Timeout under '
                           'contention' % f.qual, f.loc()))
     return obs
+
+
+@rule('O6', floor=2, title='Averager.get/pop: None exactly when no value was added, otherwise total / count of the stored pair')
+def o6(ctx):
+    obs = []
+    for m in ('get', 'pop'):
+        f = ctx.func('recipes.Averager.' + m)
+        ok, n, wit = True, 0, None
+        for p in ctx.paths(f, 'plain'):
+            if p.kind != 'return':
+                continue
+            n += 1
+            rv = p.outcome[1]
+            calls = [e for e in p.trace if e.kind == 'CALL' and e.d['name'] == m and not e.d.get('inlined')]
+            if len(calls) != 1:
+                ok, wit = False, fmt_trace(p.trace)
+                continue
+            pair = V('ret', calls[0].seq, tuple(sorted(t.qual for t in calls[0].d['targets'])))
+            total, count = V('field', pair, 0), V('field', pair, 1)
+            # a missing key stands for "nothing added": the default pair is (0, 0)
+            dflt = calls[0].d['kwargs'].get('default')
+            if dflt is None and len(calls[0].d['args']) > 1:
+                dflt = calls[0].d['args'][1]
+            if not (dflt is not None and dflt.is_const and isinstance(dflt.val, tuple) and len(dflt.val) == 2
+                    and dflt.val[0] == 0 and dflt.val[1] == 0):
+                ok, wit = False, fmt_trace(p.trace)
+            # which orderings of count versus 0 are consistent with the branch decisions of this path
+            zero = None
+            for e in p.trace:
+                if e.kind == 'TEST' and e.d['val'].k == 'cmp' and len(e.d['val'].a[0]) == 1:
+                    a, b = e.d['val'].a[1]
+                    op = e.d['val'].a[0][0]
+                    if a == count and b.is_const and b.val == 0 and op in ('Eq', 'NotEq', 'Gt', 'LtE'):
+                        is_zero = {'Eq': True, 'NotEq': False, 'Gt': False, 'LtE': True}[op]
+                        zero = is_zero if e.d['truth'] else not is_zero
+                elif e.kind == 'TEST' and e.d['val'] == count:
+                    zero = not e.d['truth']
+                elif e.kind == 'TEST' and e.d['val'].k == 'not' and e.d['val'].a[0] == count:
+                    zero = e.d['truth']
+            if rv.is_const and rv.val is None:
+                good = zero is True
+            else:
+                good = zero is False and rv.k == 'term' and rv.a[0] in ('Div', 'TrueDiv') and tuple(rv.a[1]) == (total, count)
+            if not good:
+                ok, wit = False, fmt_trace(p.trace)
+        obs.append(Ob('O6', 'Averager.%s/none-iff-empty' % m, ok and n >= 2,
+                      'Averager.%s does not return None exactly when the stored count is 0 and total / count '
+                      'otherwise' % m, f.loc(), wit))
+    return obs
